@@ -16,7 +16,9 @@ import (
 	"go.uber.org/zap/zaptest/observer"
 )
 
-// C14: SugaredLogger over an observer core.  A case is a core enabler (a LevelEnablerFunc
+// C14: SugaredLogger over an observer core, bare or under a composition of wrapping cores (forwarders
+// that register themselves, embedding wrappers, Tee, hooks, IncreaseLevel) installed with
+// WithOptions(WrapCore(..)) before, between and after the With/WithLazy calls.  A case is a core enabler (a LevelEnablerFunc
 // over any set of levels, a plain zapcore.Level, an AtomicLevel), a chain of With/WithLazy
 // calls interleaved with changes of that enabler, followed by one logging call of one of the
 // four families (w, print, f, ln) at one level (named or custom, -128..127); the observation is
@@ -352,6 +354,81 @@ type c14with struct {
 	lazy bool
 	args []interface{}
 	set  *c14enab
+	wrap int // c14W*: WithOptions(zap.WrapCore(...)) puts a wrapping core on top of the logger's core (0 = no wrap step)
+}
+
+// wrapping cores (the wire's wrapper code is wrap-1).  All of them leave Enabled alone, so the flat
+// model's gate applies; see Model.v, section Cores, for what each does with Check and Write.
+const (
+	c14WFwd    = 1 // user core: embeds zapcore.Core, Check registers ITSELF, Write forwards to the embedded core
+	c14WDeleg  = 2 // user core: embeds zapcore.Core, Check is the embedded one (the inner core registers itself)
+	c14WTee    = 3 // zapcore.NewTee(core, nop)
+	c14WHook   = 4 // zapcore.RegisterHooks(core, hook)
+	c14WFilter = 5 // zapcore.NewIncreaseLevelCore(core, the core's own enabler)
+	c14WTeeL   = 6 // zapcore.NewTee(nop, core)
+)
+
+// the textbook custom core (counting / filtering / auditing cores): it is the only kind of core that
+// calls Write on the core it wraps -- a lazyWithCore directly below it is reached through its Write
+type c14fwdCore struct {
+	zapcore.Core
+	n *int
+}
+
+func (c c14fwdCore) With(fs []zapcore.Field) zapcore.Core { return c14fwdCore{c.Core.With(fs), c.n} }
+func (c c14fwdCore) Check(e zapcore.Entry, ce *zapcore.CheckedEntry) *zapcore.CheckedEntry {
+	if c.Enabled(e.Level) {
+		return ce.AddCore(e, c)
+	}
+	return ce
+}
+func (c c14fwdCore) Write(e zapcore.Entry, fs []zapcore.Field) error {
+	*c.n++
+	return c.Core.Write(e, fs)
+}
+
+type c14delegCore struct{ zapcore.Core }
+
+func (c c14delegCore) With(fs []zapcore.Field) zapcore.Core { return c14delegCore{c.Core.With(fs)} }
+
+type c14setupPanic struct{ msg string }
+
+func c14wrap(kind int, enab zapcore.LevelEnabler, nfwd, nhook *int) func(zapcore.Core) zapcore.Core {
+	return func(c zapcore.Core) zapcore.Core {
+		switch kind {
+		case c14WFwd:
+			return c14fwdCore{c, nfwd}
+		case c14WDeleg:
+			return c14delegCore{c}
+		case c14WTee:
+			return zapcore.NewTee(c, zapcore.NewNopCore())
+		case c14WTeeL:
+			return zapcore.NewTee(zapcore.NewNopCore(), c)
+		case c14WHook:
+			return zapcore.RegisterHooks(c, func(zapcore.Entry) error { *nhook++; return nil })
+		default:
+			f, err := zapcore.NewIncreaseLevelCore(c, enab)
+			if err != nil {
+				panic(c14setupPanic{"NewIncreaseLevelCore(core, the core's own enabler): " + err.Error()})
+			}
+			return f
+		}
+	}
+}
+
+// the history's wrappers are within the model's claim (Model.v ks_ok): no self-registering forwarder
+// above a hooked core (hooked.Write only runs the hooks; zapcore/hook.go)
+func c14wrapsOK(ws []c14with) bool {
+	hooked := false
+	for _, w := range ws {
+		if w.wrap == c14WFwd && hooked {
+			return false
+		}
+		if w.wrap == c14WHook {
+			hooked = true
+		}
+	}
+	return true
 }
 
 type c14fatalHook struct{ hit *bool }
@@ -424,19 +501,28 @@ func c14run(c *c14case) (term int, entries []observer.LoggedEntry, crash string)
 		defer func() {
 			if r := recover(); r != nil {
 				_, isRT := r.(runtime.Error)
+				sp, isSetup := r.(c14setupPanic)
 				switch {
 				case fatal:
 					term = 2
 				case isRT:
 					term = 3
 					crash = fmt.Sprint(r)
+				case isSetup:
+					term = 3
+					crash = sp.msg
 				default:
 					term = 1
 				}
 			}
 		}()
 		s := zap.New(core, opts...).Sugar()
+		var nfwd, nhook int
 		for _, w := range c.withs {
+			if w.wrap != 0 {
+				s = s.WithOptions(zap.WrapCore(c14wrap(w.wrap, enab, &nfwd, &nhook)))
+				continue
+			}
 			if w.set != nil {
 				if c.en.kind == c14EnAtomic {
 					atom.SetLevel(zapcore.Level(w.set.min))
@@ -487,7 +573,16 @@ func c14emit(ctx *Ctx, c *c14case, class string) {
 	withs := make([]SX, len(c.withs))
 	nargs, kinds := len(c.args), map[int]bool{}
 	nwith := 0
+	nwrap := 0
+	if !c14wrapsOK(c.withs) {
+		panic("c14: generator produced a forwarder above a hooked core")
+	}
 	for i, w := range c.withs {
+		if w.wrap != 0 {
+			withs[i] = L(I(2), I(w.wrap-1))
+			nwrap++
+			continue
+		}
 		if w.set != nil {
 			withs[i] = L(I(1), w.set.sx())
 			continue
@@ -518,6 +613,9 @@ func c14emit(ctx *Ctx, c *c14case, class string) {
 	}
 	meta := map[string]string{"class": class, "fam": strconv.Itoa(c.fam), "lvl": strconv.Itoa(c.lvl), "n": strconv.Itoa(nargs),
 		"en": strconv.Itoa(c.en.kind)}
+	if nwrap > 0 {
+		meta["wrap"] = strconv.Itoa(nwrap)
+	}
 	nt := "0"
 	if (c.fam == 0 || nwith > 0) && nargs >= 3 && len(kinds) >= 2 {
 		nt = "1"
@@ -827,6 +925,74 @@ func c14(ctx *Ctx) {
 				withs: []c14with{w, {set: fs(2)}}}, "gate-move")
 		}
 	}
+	// the core composition: With / WithLazy under, between and above wrapping cores installed with
+	// WithOptions(WrapCore(..)) -- self-registering forwarders (the only cores that call Write on the core
+	// they wrap: a lazyWithCore below one is reached through its Write method), embedding wrappers, Tee,
+	// RegisterHooks, IncreaseLevel; the recorded entries must carry exactly the flat model's context
+	wr := func(kinds ...int) []c14with {
+		out := make([]c14with, len(kinds))
+		for i, k := range kinds {
+			out[i] = c14with{wrap: k}
+		}
+		return out
+	}
+	cat := func(parts ...[]c14with) []c14with {
+		var out []c14with
+		for _, p := range parts {
+			out = append(out, p...)
+		}
+		return out
+	}
+	type c14comp struct{ pre, post []c14with }
+	comps := []c14comp{
+		{nil, wr(c14WFwd)}, {wr(c14WFwd), wr(c14WFwd)}, {nil, wr(c14WFwd, c14WFwd)}, {wr(c14WTee), wr(c14WFwd)},
+		{wr(c14WFilter), wr(c14WFwd)}, {nil, wr(c14WFwd, c14WHook)}, {wr(c14WDeleg), wr(c14WFwd, c14WDeleg)},
+		{wr(c14WTeeL), wr(c14WFilter, c14WFwd)}, {nil, wr(c14WDeleg, c14WFwd)}, {nil, wr(c14WTee, c14WFwd, c14WTeeL)},
+		{wr(c14WFwd), nil}, {nil, wr(c14WDeleg)}, {nil, wr(c14WTee)}, {nil, wr(c14WHook)}, {nil, wr(c14WFilter)},
+		{wr(c14WHook), wr(c14WDeleg)}, {wr(c14WFwd, c14WHook), wr(c14WTee)},
+	}
+	ctxArgs := []interface{}{"k", 1, fl, e1, "s", "v"}
+	for ai, a := range directed {
+		for ci, cp := range comps {
+			for _, lazy := range []bool{true, false} {
+				fam := (ai + ci) % 4
+				c := &c14case{en: c14maskEn(c14allOn()), fam: fam, lvl: (ai + ci) % 3, text: "wrap %v",
+					withs: cat(cp.pre, []c14with{{lazy: lazy, args: a}}, cp.post)}
+				if fam == 0 {
+					c.args = []interface{}{"y", 4, "dangling"}
+				} else {
+					c.args = []interface{}{"p", ai}
+				}
+				c14emit(ctx, c, "wrap")
+			}
+		}
+		// two derivations with a wrapper between and above them: lazy/eager in every order
+		for v := 0; v < 4; v++ {
+			c14emit(ctx, &c14case{en: c14maskEn(c14allOn()), fam: 0, lvl: 1, text: "wrap2", args: a,
+				withs: cat([]c14with{{lazy: v&1 == 1, args: ctxArgs}}, wr(c14WFwd), []c14with{{lazy: v&2 == 2, args: a}}, wr(c14WFwd))}, "wrap")
+		}
+	}
+	// every method of every family at every level through WithLazy / With + forwarder compositions,
+	// malformed context (its diagnostics are written through the wrappers installed so far) and a malformed call
+	for li, lvl := range c14levels {
+		for fam := 0; fam <= 3; fam++ {
+			for _, generic := range []bool{true, false} {
+				if !generic && (lvl < -1 || lvl > 5) {
+					continue
+				}
+				for ci, cp := range comps[:10] {
+					if (ci+li+fam)%3 != 0 && ci > 1 {
+						continue
+					}
+					for _, lazy := range []bool{true, false} {
+						c14emit(ctx, &c14case{en: c14enab{kind: (li + ci) % 3, set: c14levels, min: -128}, fam: fam, lvl: lvl, text: "wm %v",
+							generic: generic, args: bad, dev: (ci+li)%7 == 0,
+							withs: cat(cp.pre, []c14with{{lazy: lazy, args: []interface{}{"k", 1, e1, e2, fl, 7, 8, "dangling"}}}, cp.post)}, "wrap-methods")
+					}
+				}
+			}
+		}
+	}
 	// 2. exhaustive: every sequence over {field, error, string, other, nil} up to length K through Infow
 	K := 5
 	if ctx.Thorough {
@@ -868,11 +1034,35 @@ func c14(ctx *Ctx) {
 	}
 	for k := 0; k < N; k++ {
 		c := &c14case{en: g.enab(), dev: g.r.Chance(15)}
-		for nw := g.r.Intn(3); nw > 0 && g.r.Chance(60); nw-- {
+		// 40% of the programs run over a composed core: wrappers before, between and after the derivations
+		wrapPct, hooked := 0, false
+		if g.r.Chance(40) {
+			wrapPct = 25 + g.r.Intn(50)
+		}
+		wraps := func() {
+			for n := 0; n < 3 && g.r.Chance(wrapPct); n++ {
+				k := c14WFwd
+				if g.r.Chance(50) {
+					k = g.r.Range(c14WFwd, c14WTeeL)
+				}
+				if k == c14WFwd && hooked {
+					k = c14WDeleg
+				}
+				hooked = hooked || k == c14WHook
+				c.withs = append(c.withs, c14with{wrap: k})
+			}
+		}
+		wraps()
+		nw := g.r.Intn(3)
+		if wrapPct > 0 && nw == 0 {
+			nw = 1
+		}
+		for ; nw > 0 && (wrapPct > 0 || g.r.Chance(60)); nw-- {
 			if mv := g.move(c.en); mv != nil && g.r.Chance(30) {
 				c.withs = append(c.withs, c14with{set: mv})
 			}
 			c.withs = append(c.withs, c14with{lazy: g.r.Bool(), args: g.list(g.r.Intn(7), g.r.Intn(3))})
+			wraps()
 		}
 		if mv := g.move(c.en); mv != nil && g.r.Chance(25) {
 			c.withs = append(c.withs, c14with{set: mv})
